@@ -635,6 +635,7 @@ func init() {
 			required = append(required, "rt_query_"+k)
 		}
 	}
+	required = append(required, "sibling_round_trips")
 	sort.Strings(required)
 	core.Register(&core.Monitor{
 		ID:        "C19",
@@ -754,6 +755,15 @@ func c19run(c *core.Ctx) {
 			} else {
 				c.Violate(prefix+"direct-query:"+f.class+":query."+c19queryKind(q0), map[string]any{"sent": c19text(q0)}, "%s", f.detail)
 			}
+			return
+		}
+	}
+	// the nearest neighbour on the wire, sent straight after the original
+	if sib, n := c19sibling(p0); n > 0 {
+		c.Count("sibling_round_trips")
+		if f, _ := c19roundTrip(sib); f != nil && !strings.HasPrefix(f.class, "generator:") {
+			c.Violate(prefix+"sibling:"+f.class+":"+c19nodeKind(p0), map[string]any{"sent_first": c19text(p0), "sent_second": c19text(sib), "mode": mode},
+				"after the original, a request that differs from it by the smallest step the wire format expresses (%d fields) does not survive: %s", n, f.detail)
 			return
 		}
 	}
